@@ -1,3 +1,3 @@
 """facade imported into instrumented modules as _sx_rt_"""
 from .core import truth, and_, or_, not_, contains
-from .models import call, fstring
+from .models import call, fstring, attr
